@@ -308,8 +308,42 @@ def noneify_nodes(log, names):
     return [conv(e) for e in log]
 
 
+# tools for which items are opaque: the second item of the first source is handed out as the object None
+# (nothing may be read into an item being None); expected logs are converted with none_at()
+NONE_POS_TOOLS = ("map", "enumerate", "batched", "chain", "cycle", "pairwise", "islice", "zip_longest")
+
+
+def none_at(log, s=1, p=2):
+    """Expected log with item (s, p) spelled None."""
+    def conv(v):
+        if isinstance(v, dict):
+            if set(v) == {"s", "p", "k"} and v["s"] == s and v["p"] == p:
+                return None
+            return {a: conv(b) for a, b in v.items()}
+        if isinstance(v, list):
+            return [conv(x) for x in v]
+        return v
+    return [conv(e) for e in log]
+
+
+def none_back(log, k, s=1, p=2):
+    """Observed log with every None turned back into item (s, p) -- the only None there can be."""
+    def conv(v):
+        if v is None:
+            return {"s": s, "p": p, "k": k}
+        if isinstance(v, dict):
+            return {a: (conv(b) if a in ("v", "a") else b) for a, b in v.items()}
+        if isinstance(v, list):
+            return [conv(x) for x in v]
+        return v
+    return [conv(e) for e in log]
+
+
 def _items_for(tool, i, keys):
     items = [Item(i, p + 1, k) for p, k in enumerate(keys)]
+    if tool in NONE_POS_TOOLS and i == 1 and len(items) >= 2:
+        items[1] = None
+        return items
     if tool in NONE_TOOLS:
         return [None if x.k == 0 else x for x in items]
     if tool == "starmap":
